@@ -1,5 +1,6 @@
 import FcpptModel.Spec.C20
 import FcpptProofs.C20.Lemmas
+import FcpptProofs.C20.Script
 /-!
 # C20 — property theorems
 
@@ -135,6 +136,28 @@ theorem draws_hasTy (D : StdDist β δ) (ty : Ty) (G : Gen γ) (n : Nat) (v : Va
   simp only [List.mem_map] at hx
   obtain ⟨y, _, rfl⟩ := hx
   exact decorate_hasTy' ty y
+
+/-! ## programs over several objects -/
+
+/-- **Transparency of whole programs.**  Take any program over any number of `distribution::basic` objects
+and `variate`s on one generator: construction by either constructor / `make_basic`, copy construction,
+copy assignment (also onto itself), moves, `swap`, draws from any object in any interleaving, `reset()`,
+`param(p)`, `==`, `min()` / `max()` / parameters / `operator<<`, variates built from a distribution in whatever
+state it is (`variate(gen, dist)`, `make_variate`, `variate(gen, params)`), copies of variates, and direct calls
+of the generator in between.  It fails (uses an object that does not exist) exactly when the same program
+written against the bare standard distribution and the bare engine fails, and otherwise every observation
+is the standard program's observation with the drawn values / `min` / `max` re-wrapped by `decorate`, and
+every object ends in exactly the state of its standard counterpart — in particular a copy continues the
+sequence of its original from the original's state, and drawing never happens on a temporary copy. -/
+theorem script_transparent (D : StdDist β δ) (out : δ → String) (ty : Ty) (G : Gen γ)
+    (acts : List (Act β)) (s : ObjsF δ) (g : γ) :
+    (runScriptF D out ty (basicPseudo G) acts s g).map (fun r => (r.1, r.2.1.erase, r.2.2)) =
+      (runScriptS D out G acts s.erase g).map (fun r => (r.1.map (Ev.map (decorate ty)), r.2.1, r.2.2)) :=
+  runScriptF_erase D out ty G acts s g
+
+/-- forgetting the wrappers loses nothing: two fcppt object tables with the same standard counterparts are equal -/
+theorem erase_injective (s t : ObjsF δ) (h : s.erase = t.erase) : s = t :=
+  ObjsF.erase_inj s t h
 
 /-! ## bounds (given the standard's contract for `uniform_int_distribution`) -/
 
@@ -281,8 +304,8 @@ theorem ends_transfer (D : StdDist β δ) (ty : Ty) (G : Gen γ) (a b : β) (n :
 
 /-! ## the contracts are satisfiable; concrete runs -/
 
-/-- the exactly specified distribution of the harness (`mod_dist`) fulfils the standard's contract, so the
-range theorems are not vacuous -/
+/-- the exactly specified (stateful) distribution of the harness (`mod_dist`) fulfils the standard's contract, so
+the range theorems are not vacuous -/
 theorem modDist_contract : StdDist.UniformInt modDist where
   param_ofParam := fun _ => rfl
   param_setParam := fun _ _ => rfl
@@ -293,16 +316,16 @@ theorem modDist_contract : StdDist.UniformInt modDist where
   draw_mem := by
     intro γ G d g h
     simp only [modDist] at h ⊢
-    have hpos : 0 < d.2 - d.1 + 1 := by omega
-    have h1 := Int.emod_nonneg (Int.ofNat (G.next g).1) (Int.ne_of_gt hpos)
-    have h2 := Int.emod_lt_of_pos (Int.ofNat (G.next g).1) hpos
+    have hpos : 0 < d.1.2 - d.1.1 + 1 := by omega
+    have h1 := Int.emod_nonneg (Int.ofNat ((G.next g).1 + d.2 * (d.2 + 1) / 2)) (Int.ne_of_gt hpos)
+    have h2 := Int.emod_lt_of_pos (Int.ofNat ((G.next g).1 + d.2 * (d.2 + 1) / 2)) hpos
     omega
 
 /-- a strong typedef of a strong typedef of `int` over `[-3, 5]` from the counter engine seeded with 10 -/
 example :
     (Variate.draws modDist (.strong (.strong .base)) (basicPseudo ctrEngine) 4
       (Variate.ctor (Basic.ctor modDist ⟨decorate (.strong (.strong .base)) (-3), decorate (.strong (.strong .base)) 5⟩)) 10).1
-      = [.strong (.strong (.base (-2))), .strong (.strong (.base (-1))), .strong (.strong (.base 0)), .strong (.strong (.base 1))] := by
+      = [.strong (.strong (.base (-2))), .strong (.strong (.base 0)), .strong (.strong (.base 3)), .strong (.strong (.base (-2)))] := by
   decide
 
 /-- a history on a strong typedef: draw from `[0,3]`, `param([10,11])`, draw, `reset()`, draw -/
@@ -310,7 +333,7 @@ example :
     (runF modDist (.strong .base) (basicPseudo ctrEngine)
       [.draw, .setParam ⟨.strong (.base 10), .strong (.base 11)⟩, .draw, .reset, .draw]
       (Basic.ctor modDist ⟨.strong (.base 0), .strong (.base 3)⟩) 6).1
-      = [.strong (.base 2), .strong (.base 11), .strong (.base 10)] ∧
+      = [.strong (.base 2), .strong (.base 10), .strong (.base 10)] ∧
     boundsInForce [.draw, .setParam ⟨.strong (.base 10), .strong (.base 11)⟩, .draw, .reset, .draw] (0, 3)
       = [(0, 3), (10, 11), (10, 11)] := by
   decide
@@ -322,22 +345,22 @@ example : (makeUniformContainer modDist [10, 20, 30]).isSome = true ∧ (makeUni
 example :
     (match makeUniformContainer modDist [10, 20, 30] with
      | some u => (UniformContainer.draws modDist (basicPseudo ctrEngine) 4 u 5).toOption.map (·.1)
-     | none => none) = some [(30, 2), (10, 0), (20, 1), (30, 2)] := by
+     | none => none) = some [(30, 2), (20, 1), (20, 1), (30, 2)] := by
   decide
 
 /-- a wrapped distribution that breaks the standard's contract makes the container wrapper fault: the
 hypothesis `hU` of `container_elem_mem` is needed -/
 example :
-    let bad : StdDist Int (Int × Int) := { modDist with draw := fun {_} _ d g => (d.2 + 1, d, g) }
+    let bad : StdDist Int ((Int × Int) × Nat) := { modDist with draw := fun {_} _ d g => (d.1.2 + 1, d, g) }
     (match makeUniformContainer bad [10, 20, 30] with
      | some u => (UniformContainer.draw bad ctrEngine u 0).toOption.isNone
      | none => false) = true := by
   decide
 
 /-- an off-by-one variant of `make_uniform_indices` (`max(size())`) would violate `index_valid`: with the
-counter engine the third draw indexes past the end -/
+counter engine the seventh draw indexes past the end -/
 example :
-    (UniformContainer.draws modDist ctrEngine 4 (UniformContainer.ctor modDist [10, 20, 30] ⟨.base 0, .base 3⟩) 0).toOption.isNone = true := by
+    (UniformContainer.draws modDist ctrEngine 8 (UniformContainer.ctor modDist [10, 20, 30] ⟨.base 0, .base 3⟩) 0).toOption.isNone = true := by
   decide
 
 end Fcppt.C20
